@@ -1,6 +1,7 @@
 """C03 — every builtin computes its documented function on all argument types (docs/C03.md)."""
 import json, os, re, sys
 import verif as V
+import jqdefs
 
 PROP = "C03"
 PROPS = "props/C03.v"
@@ -150,6 +151,17 @@ def run(tier, seed):
     if not ok:
         c.notes.append("translator failed: " + V.tail(log, 10))
     c.prove(PROPS)
+    # jq-defined builtins "behave exactly as their published definitions in builtin.jq": the published text is pinned by a
+    # recorded hash per definition (checks/builtin_jq.hashes.json, recorded from the tree the models were written against);
+    # a changed, added or removed definition is a broken tie (the streams below then search for a failing input).
+    try:
+        want = json.load(open(os.path.join(V.ROOT, "checks", "builtin_jq.hashes.json")))
+        changed = jqdefs.check(c, V.REPO, want)
+        extra = sorted(set(jqdefs.definitions(V.REPO)) - set(want))
+        for k in extra:
+            c.broken_correspondence("builtin.jq:" + k, "builtin.jq def " + k, "definition not present when the hashes were recorded")
+    except Exception as e:
+        c.notes.append("builtin.jq hash comparison failed to run: %r" % (e,))
     exe_h, hlog = V.build_harness("c03")
     st, st_sync, st_hist, skipped = {}, {}, {}, {}
     if exe_h is None:
